@@ -46,9 +46,12 @@ def _render(headers, seqs, style):
     """style: {"kind": fixed|ragged|twoline, "width": w, "widths": [...], "eol": "\\n"|"\\r\\n",
                "trail": str (appended to some lines), "final_nl": bool, "blank_end": int, "blank_mid": bool}"""
     eol = style.get("eol", "\n")
+    blank = style.get("blank_ws", "") + eol       # a "blank" line may hold blanks only
     out = []
     for hi, (hdr, seq) in enumerate(zip(headers, seqs)):
         out.append(">" + hdr + eol)
+        if style.get("blank_hdr") and hi % 2 == 0:
+            out.append(blank)                     # blank line between the header and the sequence
         lines = []
         if style["kind"] == "twoline":
             lines.append(seq)  # an empty sequence gives a blank line, as Bio's "fasta-2line" writes it
@@ -64,7 +67,7 @@ def _render(headers, seqs, style):
             t = style.get("trail", "") if (li + hi) % 3 == 0 else ""
             out.append(l + t + eol)
             if style.get("blank_mid") and (li + hi) % 4 == 1:
-                out.append(eol)
+                out.append(blank)
     text = "".join(out) + eol * style.get("blank_end", 0)
     if not style.get("final_nl", True) and text.endswith(eol) and not style.get("blank_end", 0):
         text = text[: -len(eol)]
@@ -72,17 +75,22 @@ def _render(headers, seqs, style):
 
 
 def _gen_seq(rng, width):
-    nruns = rng.choice([0, 1, 1, 2, 3, 4, 5, 6, 9])
+    dense = rng.random() < 0.15   # many very short runs: lines holding 3+ runs (first / inner / tail pieces at once)
+    nruns = rng.choice([6, 9, 14, 20, 30]) if dense else rng.choice([0, 1, 1, 2, 3, 4, 5, 6, 9])
     pieces = []
     kind = rng.choice(["N", "A"])
     for _ in range(nruns):
-        L = rng.choice([0, 1, 1, 2, 3, max(0, width - 1), width, width + 1, 2 * width, 2 * width + 1,
-                        rng.randint(0, 200), rng.randint(0, 30), rng.randint(0, 12)])
+        if dense:
+            L = rng.choice([1, 1, 1, 2, 2, 3, 4, width])
+        else:
+            L = rng.choice([0, 1, 1, 2, 3, max(0, width - 1), width, width + 1, 2 * width, 2 * width + 1,
+                            rng.randint(0, 200), rng.randint(0, 30), rng.randint(0, 12)])
         L = min(L, 200)
         if kind == "N":
             pieces.append("N" * L)
         else:
-            alpha = rng.choice(["ACGT", "acgt", "n", "ACGTn", "ACGTacgtn", "A"])
+            # IUPAC ambiguity codes other than N are ordinary (non-N) characters
+            alpha = rng.choice(["ACGT", "acgt", "n", "ACGTn", "ACGTacgtn", "A", "ACGTRYKMSWBDHVn"])
             pieces.append("".join(rng.choice(alpha) for _ in range(L)))
         # mostly alternate, sometimes repeat the kind (adjacent runs of the same kind merge)
         if rng.random() < 0.85:
@@ -114,7 +122,9 @@ def _gen_style(rng):
           "trail": rng.choice(["", "", "", "", " ", "\t", "  "]),
           "final_nl": rng.random() < 0.85,
           "blank_end": rng.choice([0, 0, 0, 0, 1, 2]),
-          "blank_mid": rng.random() < 0.06}
+          "blank_mid": rng.random() < 0.06,
+          "blank_hdr": rng.random() < 0.05,
+          "blank_ws": rng.choice(["", "", "", " ", "\t", " \t "])}
     return st
 
 
@@ -133,32 +143,92 @@ def _gen_beds(rng, names, seqs):
     beds = []
     for _ in range(rng.choice([0, 1, 1, 2, 2, 3])):
         rows = []
+        earlier = [r for b in beds for r in b]       # rows of the exclude files generated so far
         for _ in range(rng.choice([0, 1, 2, 3, 4, 6])):
             k = rng.randrange(len(names))
             c = names[k] if rng.random() < 0.92 else rng.choice(["chrZ", "chr1", "other"])
             seq = seqs[k]
             edges = sorted({x for r in _runs(seq) for x in r} | {0, len(seq)})
-            pick = lambda: max(0, rng.choice(edges) + rng.choice([-2, -1, 0, 0, 0, 1, 2])) if rng.random() < 0.7 \
+            # edges left by the earlier files on this sequence: the later subtraction meets pieces cut by the earlier
+            edges2 = sorted({x for r in earlier if r[0] == c for x in r[1:]})
+            pick = lambda: max(0, rng.choice(edges2 if edges2 and rng.random() < 0.35 else edges)
+                               + rng.choice([-2, -1, 0, 0, 0, 1, 2])) if rng.random() < 0.7 \
                 else rng.randint(0, len(seq) + 5)
-            if rows and rng.random() < 0.3:
-                b = rng.choice(rows)  # duplicate / nested / overlapping an earlier row
+            r = rng.random()
+            if (rows or earlier) and r < 0.3:
+                b = rng.choice(rows + earlier)  # duplicate / nested / overlapping an earlier row (this or another file)
                 c = b[0]
                 s = b[1] + rng.choice([0, 0, 1, -1, 3])
                 e = b[2] + rng.choice([0, 0, -1, 1, 5])
+            elif (rows or earlier) and r < 0.42:
+                b = rng.choice(rows + earlier)  # abutting an earlier row, left or right
+                c = b[0]
+                w = rng.choice([1, 1, 2, 5, 20])
+                s, e = (b[2], b[2] + w) if rng.random() < 0.5 else (b[1] - w, b[1])
             else:
                 s, e = pick(), pick()
             s, e = max(0, min(s, e)), max(s, e)
-            if e == s:
+            if e <= s:
                 e = s + rng.choice([1, 1, 2, 10])
             rows.append([c, s, e])
         if rng.random() < 0.6:
             rows.sort(key=lambda r: (r[0], r[1], r[2]))
         beds.append(rows)
+    if beds and any(beds) and len(beds) < 3 and rng.random() < 0.08:
+        beds.insert(rng.randrange(len(beds) + 1), [list(r) for r in rng.choice([b for b in beds if b])])  # one file twice
     return beds
 
 
-def _gen_gap(rng, seqs):
+BEDFMTS = ["bed3"] * 5 + ["bed4", "bed6", "bed6", "comment", "track", "browser", "crlf"]
+
+
+def _bed_text(rows, fmt):
+    """the exclude file as written to disk; the regions are the same in every format"""
+    eol = "\r\n" if fmt == "crlf" else "\n"
+    out = []
+    if fmt == "browser":
+        out.append("browser position chr1:1-1000" + eol)
+    if fmt in ("track", "browser"):
+        out.append('track name="excl" description="regions to exclude"' + eol)
+    if fmt == "comment":
+        out.append("#chrom\tstart\tend" + eol)
+    for k, (c, s, e) in enumerate(rows):
+        if fmt == "bed4":
+            out.append(f"{c}\t{s}\t{e}\tblk{k}" + eol)
+        elif fmt == "bed6":
+            out.append(f"{c}\t{s}\t{e}\tLow_Mappability_{k}\t{1000 - k}\t{'+-.'[k % 3]}" + eol)
+        else:
+            out.append(f"{c}\t{s}\t{e}" + eol)
+        if fmt == "comment" and k % 2 == 0:
+            out.append(f"# {c}\t0\t999999 is not a region" + eol)
+    return "".join(out)
+
+
+def _acc_gaps(seqs, names, beds):
+    """lengths of the stretches between accessible runs once the exclude rows are taken out as well
+    (harness-side helper for biasing the min-gap only, never used as oracle)"""
+    out = set()
+    for name, seq in zip(names, seqs):
+        ok = [ch != "N" for ch in seq]
+        for b in beds:
+            for c, s, e in b:
+                if c == name:
+                    for p in range(max(0, s), min(len(seq), e)):
+                        ok[p] = False
+        last = None          # end of the previous accessible run
+        for p, v in enumerate(ok):
+            if v:
+                if last is not None and p > last:
+                    out.add(p - last)
+                last = p + 1
+    return sorted(out)
+
+
+def _gen_gap(rng, seqs, names=None, beds=None):
     nlens = sorted({e2 - e1 for seq in seqs for (_, e1), (e2, _) in zip(_runs(seq), _runs(seq)[1:])})
+    if beds and any(beds) and rng.random() < 0.5:
+        # gaps opened or widened by the exclusions count as gaps too
+        nlens = [g for g in _acc_gaps(seqs, names, beds) if g not in nlens] or nlens
     r = rng.random()
     if nlens and r < 0.55:
         return max(0, rng.choice(nlens) + rng.choice([-1, 0, 0, 1, 1, 2]))
@@ -212,32 +282,85 @@ def corpus():
             beds=[[["chr1", 1, 2]]]),
         _mk("access_cli", "corpus-cli", ["chr1"], ["chr1"], ["ACGTNNACGTNNNNNA"], fixed(4),
             beds=[[["chr1", 1, 2]], [["chr1", 8, 9]]], gap=3),
+        # every -x file counts (long option spellings, FASTA argument last, annotated BED with a track line)
+        _mk("access_cli", "corpus-cli", ["chr1", "2"], ["chr1", "2"], ["ACGT" * 5, "ACGTNACGT"], fixed(6),
+            beds=[[["chr1", 2, 4]], [["chr1", 10, 15], ["2", 1, 2]]], bedfmt=["bed6", "track"], gap=1,
+            cliopts={"s": "--min-gap-size=", "x": "--exclude", "o": "--output", "fa_first": False}),
+        # do_access with its trailing arguments left to their defaults / given by keyword
+        _mk("access", "corpus", ["chr1", "chrM"], ["chr1", "chrM"], ["ACGTNNACGT", "ACGT"], fixed(4),
+            beds=[], call="defaults"),
+        _mk("access", "corpus", ["chr1", "chrM"], ["chr1", "chrM"], ["ACGTNNACGT", "ACGT"], fixed(4),
+            beds=[[["chr1", 0, 1]]], bedfmt=["comment"], skip=False, call="nogap"),
+        _mk("access", "corpus", ["chr1", "chrM"], ["chr1", "chrM"], ["ACGTNNACGT", "ACGT"], fixed(4),
+            beds=[[["chr1", 0, 1]], [["chr1", 1, 2]]], bedfmt=["crlf", "bed4"], gap=2, call="noskip"),
+        # a gap that only the exclusion opens, exactly min-gap wide (kept) and one narrower (bridged)
+        _mk("access", "corpus", ["chr1"], ["chr1"], ["A" * 30], fixed(7), beds=[[["chr1", 10, 13]]], gap=3, skip=True,
+            call="kw"),
+        _mk("access", "corpus", ["chr1"], ["chr1"], ["A" * 30], fixed(7), beds=[[["chr1", 10, 13]]], gap=4, skip=True,
+            call="tuple"),
     ]
     return cs
 
 
+CALLS = ["pos"] * 6 + ["kw", "kw", "tuple", "nogap", "noskip", "defaults"]
+
+
+def _gen_access(rng, tag=None):
+    names, headers, seqs, style = _gen_file(rng)
+    beds = _gen_beds(rng, names, seqs)
+    extra = {"beds": beds, "bedfmt": [rng.choice(BEDFMTS) for _ in beds],
+             "gap": _gen_gap(rng, seqs, names, beds), "skip": rng.random() < 0.5}
+    # how do_access is called: all four arguments by position (the CLI's way), by keyword, the exclude files
+    # as a tuple, or with trailing arguments left to their defaults (the key is then absent from the case
+    # and the driver takes the default read from the source)
+    call = rng.choice(CALLS)
+    if call in ("nogap", "defaults"):
+        del extra["gap"]
+    if call in ("noskip", "defaults"):
+        del extra["skip"]
+    extra["call"] = call
+    return _mk("access", (tag or "access-") + style["kind"], names, headers, seqs, style, **extra)
+
+
+def _gen_cli(rng, sub=False):
+    names, headers, seqs, style = _gen_file(rng)
+    beds = _gen_beds(rng, names, seqs)
+    while sub and not any(_runs(s) for s in seqs):
+        names, headers, seqs, style = _gen_file(rng)
+        beds = _gen_beds(rng, names, seqs)
+    extra = {"beds": beds, "bedfmt": [rng.choice(BEDFMTS) for _ in beds]}
+    if rng.random() < 0.8:      # otherwise -s is left out: the parser's default reaches do_access
+        extra["gap"] = _gen_gap(rng, seqs, names, beds) or 0
+    # option spellings: short / long / long with '='; options before or after the FASTA argument
+    extra["cliopts"] = {"s": rng.choice(["-s", "-s", "--min-gap-size", "--min-gap-size="]),
+                        "x": rng.choice(["-x", "-x", "--exclude", "--exclude="]),
+                        "o": rng.choice(["-o", "--output"]),
+                        "fa_first": rng.random() < 0.6}
+    if sub:
+        # the command as a user types it: `cnvkit.py access FASTA -s N -x BED`, regions on standard output
+        extra["cliopts"]["subprocess"] = True
+    return _mk("access_cli", "cli-stdout" if sub else "cli", names, headers, seqs, style, **extra)
+
+
 def gen_cases(rng, tier):
-    n_acc, n_scan, n_names, n_bad = {"quick": (900, 400, 300, 30), "thorough": (20000, 6000, 3000, 300),
-                                     "search": (1500, 500, 0, 0)}[tier]
+    n_acc, n_scan, n_names, n_bad, n_cli, n_sub = {
+        "quick": (800, 300, 300, 30, 110, 3), "thorough": (20000, 6000, 3000, 300, 3000, 12),
+        "search": (1500, 500, 0, 0, 0, 0)}[tier]
     cases = []
     for _ in range(n_scan):
         names, headers, seqs, style = _gen_file(rng)
         cases.append(_mk("get_regions", "scan-" + style["kind"], names, headers, seqs, style))
     for _ in range(n_acc):
-        names, headers, seqs, style = _gen_file(rng)
-        cases.append(_mk("access", "access-" + style["kind"], names, headers, seqs, style,
-                         beds=_gen_beds(rng, names, seqs), gap=_gen_gap(rng, seqs), skip=rng.random() < 0.5))
-    for k in range(4 if tier != "search" else 0):
-        names, headers, seqs, style = _gen_file(rng)
-        extra = {"beds": [b for b in _gen_beds(rng, names, seqs)]}
-        if k % 2:
-            extra["gap"] = _gen_gap(rng, seqs) or 0
-        cases.append(_mk("access_cli", "cli", names, headers, seqs, style, **extra))
+        cases.append(_gen_access(rng))
+    for _ in range(n_cli):
+        cases.append(_gen_cli(rng))
+    for _ in range(n_sub):
+        cases.append(_gen_cli(rng, sub=True))
     cases += _name_cases(rng, n_names)
     # malformed stream: outside the property's quantifier; only model == code is checked
     for k in range(n_bad):
         names, headers, seqs, style = _gen_file(rng)
-        style = dict(style, blank_mid=False)
+        style = dict(style, blank_mid=False, blank_hdr=False)
         kind = k % 3
         if kind == 0:      # sequence text before the first header
             c = _mk("get_regions" if k % 2 else "access", "malformed-noheader", names, headers, seqs, style,
@@ -282,29 +405,60 @@ def run_impl(case):
         if op == "get_regions":
             return [[str(c), int(s), int(e)] for c, s, e in access.get_regions(fa)]
         fns = []
+        fmts = i.get("bedfmt") or []
         for k, rows in enumerate(i["beds"]):
             fn = os.path.join(d, f"excl{k}.bed")
-            with open(fn, "w") as f:
-                f.write("".join(f"{c}\t{s}\t{e}\n" for c, s, e in rows))
+            with open(fn, "w", newline="") as f:
+                f.write(_bed_text(rows, fmts[k] if k < len(fmts) else "bed3"))
             fns.append(fn)
         if op == "access":
-            return _rows(access.do_access(fa, fns, i["gap"], i["skip"]))
-        if op == "access_cli":
-            from cnvlib import commands
-            from skgenome import tabio
-            outfn = os.path.join(d, "out.bed")
-            argv = ["access", fa, "-o", outfn]
-            for fn in fns:
-                argv += ["-x", fn]
+            call = i.get("call", "pos")
+            if call == "pos":
+                return _rows(access.do_access(fa, fns, i["gap"], i["skip"]))
+            kw = {}
             if "gap" in i:
-                argv += ["-s", str(i["gap"])]
-            args = commands.parse_args(argv)
-            args.func(args)
-            args.output.close()
-            # read the written BED back by hand (chrom, start, end as written)
+                kw["min_gap_size"] = i["gap"]
+            if "skip" in i:
+                kw["skip_noncanonical"] = i["skip"]
+            if call == "tuple":
+                return _rows(access.do_access(fa, tuple(fns), **kw))
+            if call == "kw" or fns:
+                return _rows(access.do_access(fa_fname=fa, exclude_fnames=fns, **kw))
+            return _rows(access.do_access(fa, **kw))      # no exclude files: that argument left to its default too
+        if op == "access_cli":
+            co = i.get("cliopts") or {}
+
+            def opt(flag, val):
+                return [flag + val] if flag.endswith("=") else [flag, val]
+
+            opts = []
+            for fn in fns:
+                opts += opt(co.get("x", "-x"), fn)
+            if "gap" in i:
+                opts += opt(co.get("s", "-s"), str(i["gap"]))
+            if co.get("subprocess"):
+                import subprocess
+                import sys
+                from harness import core
+                env = dict(os.environ, PYTHONPATH=core.REPO)
+                argv = [sys.executable, "-m", "cnvlib.cnvkit", "access", fa] + opts
+                pr = subprocess.run(argv, cwd=d, env=env, capture_output=True, text=True, timeout=300)
+                if pr.returncode != 0:
+                    raise RuntimeError("cnvkit.py access failed: " + pr.stderr[-300:])
+                lines = pr.stdout.splitlines()
+            else:
+                from cnvlib import commands
+                outfn = os.path.join(d, "out.bed")
+                opts += [co.get("o", "-o"), outfn]
+                argv = ["access"] + ([fa] + opts if co.get("fa_first", True) else opts + [fa])
+                args = commands.parse_args(argv)
+                args.func(args)
+                args.output.close()
+                lines = open(outfn).read().splitlines()
+            # read the written BED by hand (chrom, start, end as written)
             rows = []
-            for line in open(outfn):
-                c, s, e = line.rstrip("\n").split("\t")[:3]
+            for line in lines:
+                c, s, e = line.split("\t")[:3]
                 rows.append([c, int(s), int(e)])
             return rows
         raise ValueError(op)
@@ -324,10 +478,9 @@ def to_line(case, impl):
     op = case["op"]
     if op in ("access", "access_cli"):
         inp["beds"] = i["beds"]
-        if op == "access":
-            inp["gap"], inp["skip"] = i["gap"], i["skip"]
-        elif "gap" in i:
-            inp["gap"] = i["gap"]       # skip / gap left out: the driver takes the defaults read from the source
+        for k in ("gap", "skip"):       # skip / gap left out: the driver takes the defaults read from the source
+            if k in i:
+                inp[k] = i[k]
         op = "access"
     line = {"op": op, "in": inp}
     if not (isinstance(impl, dict) and "__error__" in impl) and not _malformed(case):
@@ -387,7 +540,7 @@ def shrink(case):
     names = [s[0] for s in i["seqs"]]
     seqs = [s[1] for s in i["seqs"]]
     headers, style = i["headers"], i["style"]
-    extra = {k: i[k] for k in ("beds", "gap", "skip") if k in i}
+    extra = {k: i[k] for k in ("beds", "bedfmt", "gap", "skip", "call", "cliopts") if k in i}
 
     def mk(nm, hd, sq, st, ex):
         return _mk(case["op"], "shrunk", nm, hd, sq, st, **ex)
@@ -396,8 +549,10 @@ def shrink(case):
         if len(names) > 1:
             yield mk(names[:k] + names[k + 1:], headers[:k] + headers[k + 1:], seqs[:k] + seqs[k + 1:], style, extra)
     if "beds" in extra:
+        fm = extra.get("bedfmt") or ["bed3"] * len(extra["beds"])
         for b in range(len(extra["beds"])):
-            yield mk(names, headers, seqs, style, dict(extra, beds=extra["beds"][:b] + extra["beds"][b + 1:]))
+            yield mk(names, headers, seqs, style, dict(extra, beds=extra["beds"][:b] + extra["beds"][b + 1:],
+                                                       bedfmt=fm[:b] + fm[b + 1:]))
             for r in range(len(extra["beds"][b])):
                 nb = [list(x) for x in extra["beds"]]
                 nb[b] = nb[b][:r] + nb[b][r + 1:]
@@ -408,8 +563,12 @@ def shrink(case):
             if a < b <= n:
                 ns = seqs[:k] + [s[:a] + s[b:]] + seqs[k + 1:]
                 yield mk(names, headers, ns, style, extra)
-    simple = dict(style, trail="", eol="\n", final_nl=True, blank_mid=False)
+    simple = dict(style, trail="", eol="\n", final_nl=True, blank_mid=False, blank_hdr=False, blank_ws="")
     if simple != style:
         yield mk(names, [n for n in names], seqs, simple, extra)
     if style.get("blank_end", 0):
         yield mk(names, headers, seqs, dict(style, blank_end=0), extra)
+    if any(f != "bed3" for f in extra.get("bedfmt") or []):
+        yield mk(names, headers, seqs, style, dict(extra, bedfmt=["bed3"] * len(extra["beds"])))
+    if extra.get("call", "pos") != "pos" and "gap" in extra and "skip" in extra:
+        yield mk(names, headers, seqs, style, dict(extra, call="pos"))
